@@ -46,6 +46,14 @@ def expected_recs(v):
 
 
 def tpl_msg(proto, tid, v):
+    if v == 0:
+        # the exporter takes the template back: a template record without fields (followed by another template record - a
+        # lone 4-octet record at the end of a set reads as padding).  Data for the id is then 'not announced': no records.
+        rec = u16(tid) + u16(0) + u16(65000) + u16(1) + u16(8) + u16(4)
+        if proto == "ipfix":
+            body = u16(2) + u16(4 + len(rec)) + rec
+            return [0, 10] + u16(16 + len(body)) + [0] * 12 + body
+        return [0, 9, 0, 2] + [0] * 16 + u16(0) + u16(4 + len(rec)) + rec
     specs = VERSION_SPECS[v]
     scope = SCOPE_SPECS.get(v, [])
     enc = lambda ss: [o for e, l in ss for o in u16(e) + u16(l)]
@@ -305,6 +313,12 @@ def check(ctx):
                        files={"run5.cfg": (CFG % dict(exps='"ea", "eb"', peers="FALSE", dev="FALSE", ops=6 if thorough else 5, emit="TRUE"))
                               .replace("Ids = {256, 257}", "Ids = {257}")})
     hists_pair = [c["hist"] for c in r5.cases if len(c["hist"]) >= 4 and c["hist"][-1]["op"] == "data" and len({o["e"] for o in c["hist"]}) == 2]
+    # ... and the same pair with templates taken back in between
+    r6 = ctx.tlc_model("TemplateCacheMC", "run6.cfg", want_cases=True,
+                       files={"run6.cfg": (CFG % dict(exps='"ea", "eb"', peers="FALSE", dev="FALSE", ops=5 if thorough else 4, emit="TRUE"))
+                              .replace("Ids = {256, 257}", "Ids = {257}").replace("Versions = {1, 2}", "Versions = {0, 1, 2}")})
+    hists_pair += [c["hist"] for c in r6.cases if len(c["hist"]) >= 3 and c["hist"][-1]["op"] == "data"
+                   and any(o["op"] == "announce" and o["v"] == 0 for o in c["hist"])]
     hists = [c["hist"] for c in r1.cases if c["hist"]]
     hists_peer = [c["hist"] for c in r2.cases if c["hist"] and any(o["op"].startswith("peer") for o in c["hist"])]
     ctx.note("TLC emitted %d + %d histories" % (len(hists), len(hists_peer)))
